@@ -156,6 +156,25 @@ func (ex *Exec) chooseOrderFor(m *omap, live []int) []int {
 	if ex.mapOrderMin > 0 && len(live) < ex.mapOrderMin {
 		return live
 	}
+	if ex.mapOrderFull < 0 {
+		// one perturbation per path, applied to every map: identity, reversal or rotation by one
+		if ex.mapOrderGlobal == 0 {
+			ex.mapOrderGlobal = 1 + ex.Choose(3, "maporder-global")
+		}
+		n := len(live)
+		out := make([]int, n)
+		for j := range live {
+			switch ex.mapOrderGlobal {
+			case 2:
+				out[j] = live[n-1-j]
+			case 3:
+				out[j] = live[(j+1)%n]
+			default:
+				out[j] = live[j]
+			}
+		}
+		return out
+	}
 	if !ex.mapOrderSticky {
 		return ex.chooseOrder(live)
 	}
